@@ -153,6 +153,7 @@ fn main() {
                 "flags4" => sessrec::record_flags4(seed, n, out, &mut rep),
                 "stopassign" => sessrec::record_stopassign(seed, n, out, &mut rep),
                 "runfresh" => sessrec::record_runfresh(seed, n, out, &mut rep),
+                "cycles" => sessrec::record_cycles(seed, n, out, flags.contains(&"warn"), &mut rep),
                 "inputassign" => sessrec::record_inputassign(seed, n, out, &mut rep),
                 "editprobe" => sessrec::record_editprobe(seed, n, out, &mut rep),
                 "fuzz" => sessrec::record_fuzz(seed, n, out, &mut rep),
